@@ -70,6 +70,12 @@ def queries(tier):
                                             "receive_pending": bool(waiter), "header_and_payload": "symbolic"}))
     qs.append(Query("listener-accept-any-result", "c14/listener_accept.c", tus=["core/list.c", "core/options.c"], env=["env_alloc.c", "env_misc.c", "env_sync.c", "env_aio.c", "env_libc.c"], defs={}, unwind=10,
                     unwind_rules=KIT_RULES, timeout=300, params={"kernel": "listener_accept_cb", "result": "any nng_err"}))
+    # peers that drop out of (or fail) the handshake of a tcp / ipc listener: only that connection is lost, the listener keeps accepting
+    from props import C14
+    for q in C14.tran_listener_queries(tier):
+        if "N(0)" in q.defs.get("SKEL", "") or "N(2)" in q.defs.get("SKEL", ""):
+            q.group = "~" + q.group + "#c11"
+            qs.append(q)
     qs += ws_upgrade_queries(tier)
     seen = set()
     out = []
